@@ -10,7 +10,7 @@ created by the patch are removed).
 """
 import json, os, subprocess, sys, time
 
-REPO = "/repo"
+REPO = os.environ.get("VERIF_REPO", "/repo")
 ROOT = os.path.normpath(os.path.join(os.path.dirname(os.path.abspath(__file__)), ".."))
 
 
